@@ -4,7 +4,12 @@ the property it breaks, on a scratch copy of /repo/src (never /repo itself),
 and record the outcome in its meta.json ("detected_by") and in
 selftest/SEEDED_RESULTS.md.
 
-usage: tools/run_seeded.py [--tier quick] [--only C07-1] [--also C15:C19-2]
+usage: tools/run_seeded.py [--tier quick] [--only C07-1] [--round2]
+                            [--seeds 1,2,3] [-j 3]
+
+With several seeds a mutant counts as detected by a check only if the check
+fails at EVERY seed (a detection that depends on the seed is reported as
+"flaky k/n").
 """
 import json
 import os
@@ -22,7 +27,7 @@ ALSO = {"C19-2": ["C15"], "C07-3": ["C15"], "C09-3": ["C16"],
         "C18-3": ["C13"], "C19-4": ["C15"]}
 
 
-def run(check, patch, tier):
+def run(check, patch, tier, seed="1"):
     scratch = tempfile.mkdtemp(prefix="seed.")
     try:
         shutil.copytree("/repo/src/chameleon",
@@ -34,6 +39,7 @@ def run(check, patch, tier):
         if p.returncode != 0:
             return "patch-failed", p.stdout[-300:] + p.stderr[-300:]
         env = dict(os.environ, VERIF_SRC=os.path.join(scratch, "src"),
+                   VERIF_SEED=str(seed),
                    VERIF_EVIDENCE_DIR=os.path.join(scratch, "evidence"))
         p = subprocess.run([os.path.join(ROOT, "bin", "check"), check,
                             "--tier", tier], env=env, capture_output=True,
@@ -45,45 +51,74 @@ def run(check, patch, tier):
         shutil.rmtree(scratch, ignore_errors=True)
 
 
+def one(args):
+    name, tier, seeds = args
+    d = os.path.join(ROOT, "seeded", name)
+    patch = os.path.join(d, "patch.diff")
+    # (a mutant whose context was changed by a later fix: commit in /repo
+    # is kept in its original form and re-applied by hand as
+    # patch.rebased.diff - the same change on the current tree)
+    rebased = os.path.join(d, "patch.rebased.diff")
+    if os.path.exists(rebased):
+        patch = rebased
+    prop = name.split("-")[0]
+    results = {}
+    for check in [prop] + ALSO.get(name, []):
+        per_seed = {}
+        lines = []
+        for sd in seeds:
+            rc, info = run(check, patch, tier, sd)
+            per_seed[sd] = rc
+            if rc == 1 and not lines:
+                lines = info
+        results[check] = {"exit": per_seed, "lines": lines}
+    return name, results
+
+
 def main():
+    import multiprocessing.pool
     tier = "quick"
     only = None
+    seeds = ["1"]
+    jobs = 3
     if "--tier" in sys.argv:
         tier = sys.argv[sys.argv.index("--tier") + 1]
     if "--only" in sys.argv:
-        only = sys.argv[sys.argv.index("--only") + 1]
-    rows = []
+        only = sys.argv[sys.argv.index("--only") + 1].split(",")
+    if "--seeds" in sys.argv:
+        seeds = sys.argv[sys.argv.index("--seeds") + 1].split(",")
+    if "-j" in sys.argv:
+        jobs = int(sys.argv[sys.argv.index("-j") + 1])
+    names = []
     for name in sorted(os.listdir(os.path.join(ROOT, "seeded"))):
-        if only and name != only:
+        if only and name not in only:
             continue
         if "--round2" in sys.argv and name.split("-")[1] not in ("3", "4"):
             continue
+        if os.path.exists(os.path.join(ROOT, "seeded", name, "patch.diff")):
+            names.append(name)
+    rows = []
+    pool = multiprocessing.pool.ThreadPool(jobs)
+    for name, results in pool.imap(one, [(n, tier, seeds) for n in names]):
         d = os.path.join(ROOT, "seeded", name)
-        patch = os.path.join(d, "patch.diff")
-        if not os.path.exists(patch):
-            continue
-        # (a mutant whose context was changed by a later fix: commit in /repo
-        # is kept in its original form and re-applied by hand as
-        # patch.rebased.diff - the same change on the current tree)
-        rebased = os.path.join(d, "patch.rebased.diff")
-        if os.path.exists(rebased):
-            patch = rebased
-        prop = name.split("-")[0]
-        results = {}
-        for check in [prop] + ALSO.get(name, []):
-            rc, info = run(check, patch, tier)
-            results[check] = {"exit": rc, "lines": info}
-        detected = [c for c, r in results.items() if r["exit"] == 1]
+
+        def all_seeds(r):
+            return all(v == 1 for v in r["exit"].values())
+        detected = [c for c, r in results.items() if all_seeds(r)]
+        flaky = ["%s flaky %d/%d" % (c, sum(v == 1 for v in
+                                             r["exit"].values()), len(seeds))
+                 for c, r in results.items()
+                 if not all_seeds(r) and 1 in r["exit"].values()]
         meta_p = os.path.join(d, "meta.json")
         meta = json.load(open(meta_p))
         meta["detected_by"] = {
-            "checks": detected, "tier": tier,
-            "results": {c: {"exit": r["exit"],
+            "checks": detected, "tier": tier, "seeds": seeds,
+            "results": {c: {"exit_by_seed": r["exit"],
                             "first_lines": r["lines"][:2]}
                         for c, r in results.items()}}
         json.dump(meta, open(meta_p, "w"), indent=1)
         what = re.sub(r"\s+", " ", meta.get("needs_to_manifest", ""))[:110]
-        rows.append((name, ",".join(detected) or "MISSED", str(
+        rows.append((name, ",".join(detected + flaky) or "MISSED", str(
             {c: r["exit"] for c, r in results.items()}), what))
         print(rows[-1][:3], flush=True)
     if not only:
@@ -91,12 +126,15 @@ def main():
             else "SEEDED_RESULTS.md"
         with open(os.path.join(ROOT, "selftest", fn), "w") as f:
             f.write("# Seeded mutants (independent sub-agents) vs checks "
-                    "(tier %s)\n\n| mutant | detected by | exit codes | "
-                    "what it needs |\n|---|---|---|---|\n" % tier)
+                    "(tier %s, seeds %s)\n\n| mutant | detected by | exit "
+                    "codes by seed | what it needs |\n|---|---|---|---|\n"
+                    % (tier, ",".join(seeds)))
             for r in rows:
                 f.write("| %s | %s | %s | %s |\n" % r)
-    missed = [r[0] for r in rows if r[1] == "MISSED"]
-    print("missed:", missed)
+    missed = [r[0] for r in rows if r[1] == "MISSED" or (
+        "flaky" in r[1] and not any(
+            "flaky" not in x for x in r[1].split(",")))]
+    print("missed or flaky only:", missed)
     return 1 if missed else 0
 
 
